@@ -54,7 +54,7 @@ VARIABLES l,      \* next line of the trace
           tb,     \* sequence of table records (observed state)
           tx,     \* per table: [lv, pl, len, cap, asz]
           ab,     \* sequence of abstract contents
-          lk,     \* leaked by mem::forget: [ids, blocks]
+          lk,     \* leaked by mem::forget: [ids, blocks]; dv = tables whose contents diverged from the reference model
           ok      \* the current observed state satisfied the invariant (STRICT operators may be applied)
 tvars == <<l, hd, tb, tx, ab, lk, ok>>
 
@@ -75,7 +75,11 @@ ObsTable(s, es) ==
    ctrl |-> [i \in 0..(Len(s.c) - 1) |-> s.c[i + 1]],
    data |-> [i \in 0..(Len(s.d) - 1) |-> s.d[i + 1]],
    items |-> s.it, gl |-> s.g, es |-> es]
-ObsX(s) == [lv |-> s.lv = 1, pl |-> s.pl, len |-> s.len, cap |-> s.cap, asz |-> s.asz]
+ObsX(s) == [lv |-> s.lv = 1, pl |-> s.pl, len |-> s.len, cap |-> s.cap, asz |-> s.asz, mc |-> s.cap]
+\* mc = the largest capacity() the table has reported while it held its current allocation
+WithMc(old, new) == [i \in 1..Len(new) |->
+   IF i <= Len(old) /\ old[i].lv /\ new[i].lv /\ old[i].asz = new[i].asz /\ old[i].mc > new[i].cap THEN [new[i] EXCEPT !.mc = old[i].mc] ELSE new[i]]
+SameX(a, b) == a.lv = b.lv /\ a.pl = b.pl /\ a.len = b.len /\ a.cap = b.cap /\ a.asz = b.asz
 
 PlanFn(h, pl) == [k \in 0..(Len(h.plans[pl + 1]) - 1) |-> [pos |-> h.plans[pl + 1][k + 1][1], tag |-> h.plans[pl + 1][k + 1][2]]]
 
@@ -166,7 +170,7 @@ CautiousBuckets == 8192          \* capacity_to_buckets(4096): the reservation m
 Init == /\ l = 1
         /\ hd = [W |-> W]
         /\ tb = <<>> /\ tx = <<>> /\ ab = <<>>
-        /\ lk = [ids |-> {}, blocks |-> <<>>]
+        /\ lk = [ids |-> {}, blocks |-> <<>>, dv |-> {}]
         /\ TLCSet(42, 0) /\ TLCSet(43, <<>>) /\ TLCSet(44, 0) /\ TLCSet(45, <<>>) /\ TLCSet(46, 0) /\ TLCSet(47, <<>>) /\ TLCSet(48, 0) /\ TLCSet(49, 0)
         /\ ok = TRUE
 
@@ -176,9 +180,9 @@ ResetStep(e) ==
   /\ IF e.W # W THEN Fail(l, {"group width of the trace differs from the specification's W"}) ELSE TRUE
   /\ hd' = e
   /\ tb' = [i \in 1..e.nt |-> Singleton(e.es)]
-  /\ tx' = [i \in 1..e.nt |-> [lv |-> FALSE, pl |-> 0, len |-> 0, cap |-> 0, asz |-> 0]]
+  /\ tx' = [i \in 1..e.nt |-> [lv |-> FALSE, pl |-> 0, len |-> 0, cap |-> 0, asz |-> 0, mc |-> 0]]
   /\ ab' = [i \in 1..e.nt |-> {}]
-  /\ lk' = [ids |-> {}, blocks |-> <<>>]
+  /\ lk' = [ids |-> {}, blocks |-> <<>>, dv |-> {}]
   /\ ok' = TRUE
 
 EndStep(e) ==
@@ -313,10 +317,15 @@ OpStep(e) ==
                     ELSE IF e.op \in OpForms /\ i = 3 THEN TRUE ELSE tx[i].lv
       \* ---------- leaks (mem::forget of a Drain): elements not yielded and the block stay allocated forever
       forgot == e.op = "drain" /\ e.n = 1
-      lk2 == IF forgot
-             THEN [ids |-> lk.ids \cup (AllIds(A) \ Ids({y[2] : y \in SeqToSet(e.y)} \cup {y[4] : y \in SeqToSet(e.y)})),
-                   blocks |-> IF pre.mask # 0 THEN Append(lk.blocks, BlockOf(pre, hd)) ELSE lk.blocks]
+      lk1 == IF forgot
+             THEN [lk EXCEPT !.ids = lk.ids \cup (AllIds(A) \ Ids({y[2] : y \in SeqToSet(e.y)} \cup {y[4] : y \in SeqToSet(e.y)})),
+                             !.blocks = IF pre.mask # 0 THEN Append(lk.blocks, BlockOf(pre, hd)) ELSE lk.blocks]
              ELSE lk
+      \* tables whose contents differ from what the reference model holds (they stay marked until their contents are replaced)
+      Replaced(i) == \/ (e.op \in {"clone", "serde_roundtrip"} /\ i = u)
+                     \/ (e.op \in {"serde_de", "serde_de_in_place", "clone_from", "or_assign", "xor_assign", "new", "with_capacity", "drop", "clear"} /\ i = t)
+                     \/ (e.op \in OpForms /\ i = 3)
+      lk2 == [lk1 EXCEPT !.dv = {i \in 1..hd.nt : lvAfter(i) /\ (Elems(obsT[i]) # newAb[i] \/ (i \in lk.dv /\ ~Replaced(i)))}]
       \* ---------- PROPERTY checks
       chkRet == absr.ok /\ cloneOK /\ algOK
       chkAbs == \A i \in 1..hd.nt : lvAfter(i) => Elems(obsT[i]) = newAb[i]
@@ -353,7 +362,7 @@ OpStep(e) ==
                \* a representable request fails only because the allocator refused it
                /\ (e.n >= 0 /\ e.r[1] # 0 => e.r[1] = 2 /\ \E i \in 1..Len(e.al) : e.al[i][1] = 0)
                /\ (IF e.r[1] = 0 THEN (e.n >= 0 => obsX[t].cap >= obsX[t].len + e.n)
-                   ELSE /\ obsT[t] = pre /\ obsX[t] = prex /\ e.dr = <<>>        \* error: nothing changed, nothing leaked
+                   ELSE /\ obsT[t] = pre /\ SameX(obsX[t], prex) /\ e.dr = <<>>        \* error: nothing changed, nothing leaked
                         /\ \A i \in 1..Len(e.al) : e.al[i][1] = 0                \* only the refused request
                         /\ (e.r[1] = 2 => \E i \in 1..Len(e.al) : e.al[i][2] = e.r[2] /\ e.al[i][3] = e.r[3]))
           [] e.op \in {"shrink_to", "shrink_to_fit", "t_shrink_to_fit"} ->
@@ -365,8 +374,9 @@ OpStep(e) ==
                   /\ (obsX[t].len = 0 /\ m = 0) => obsX[t].asz = 0
                   \* e.r[1] = allocation_size of a fresh with_capacity(max(len, m)), measured on the real code
                   /\ (need > 0 /\ Len(e.r) >= 1 => obsX[t].asz <= e.r[1])
-          [] e.op = "clear" -> obsX[t].asz = prex.asz /\ e.al = <<>>
-          [] e.op = "drain" -> e.al = <<>> /\ (e.n = 0 => obsX[t].asz = prex.asz)
+          \* ... and the emptied collection is as usable as it ever was with this allocation (C10: "still usable with its allocation")
+          [] e.op = "clear" -> obsX[t].asz = prex.asz /\ e.al = <<>> /\ obsX[t].cap >= prex.mc
+          [] e.op = "drain" -> e.al = <<>> /\ (e.n = 0 => obsX[t].asz = prex.asz /\ obsX[t].cap >= prex.mc)
           [] e.op = "new" -> obsX[t].asz = 0
           [] OTHER -> TRUE
       \* C13: under insert/remove churn with at most nk live elements and no explicit reservation the allocation stays
@@ -385,6 +395,8 @@ OpStep(e) ==
              \cup {<<"findability invariant violated on the observed state: " \o m, opp \cup KindProp(hd.kind)>> : m \in invFind}
              \cup (IF ~chkRet THEN {<<"result differs from the abstract specification", opp>>} ELSE {})
              \cup (IF ~chkAbs THEN {<<"contents differ from the abstract specification", opp>>} ELSE {})
+             \cup (IF t \in lk.dv /\ e.op \in {"iter", "into_iter", "drain"}
+                   THEN {<<"iterates a table whose contents had diverged from the reference model at an earlier operation (the elements it yields are not the stored ones)", {"C09"}>>} ELSE {})
              \cup (IF ~chkDrops THEN {<<"dropped elements differ from the abstract specification",
                                         {"C03", "C04"} \cup (IF e.op \in ParOps THEN {"C19"} ELSE {}) \cup (IF e.op \in {"serde_de", "serde_de_in_place"} THEN {"C20"} ELSE {})>>} ELSE {})
              \cup (IF ~chkFresh THEN {<<"an object created during the call is neither stored nor dropped (leak)", {"C03", "C04"} \cup opp>>} ELSE {})
@@ -427,7 +439,7 @@ OpStep(e) ==
      \* STRICT is evaluated only on states that passed the invariant (operators are partial outside it)
      /\ IF bad = {} /\ ok /\ ~strictOK THEN TLCSet(42, TLCGet(42) + 1) /\ (IF TLCGet(45) = <<>> THEN TLCSet(45, <<l, e.op>>) ELSE TRUE) ELSE TRUE
      /\ TLCSet(44, TLCGet(44) + 1)
-     /\ tb' = obsT /\ tx' = obsX /\ lk' = lk2
+     /\ tb' = obsT /\ tx' = WithMc(tx, obsX) /\ lk' = lk2
      \* after a foreign failure the abstract state follows the observation
      /\ ab' = IF bad = {} THEN newAb ELSE [i \in 1..hd.nt |-> IF obsX[i].lv THEN Elems(obsT[i]) ELSE {}]
      /\ ok' = sane
@@ -494,9 +506,9 @@ FaultStep(e) ==
      /\ IF bad # {} /\ mine = {} THEN TLCSet(46, TLCGet(46) + 1) /\ (IF TLCGet(47) = <<>> THEN TLCSet(47, <<l, e.op, {b[1] : b \in bad}>>) ELSE TRUE) ELSE TRUE
      /\ IF bad = {} /\ ok /\ ~strictOK THEN TLCSet(42, TLCGet(42) + 1) /\ (IF TLCGet(45) = <<>> THEN TLCSet(45, <<l, e.op>>) ELSE TRUE) ELSE TRUE
      /\ TLCSet(44, TLCGet(44) + 1) /\ TLCSet(48, TLCGet(48) + 1)
-     /\ tb' = obsT /\ tx' = obsX
+     /\ tb' = obsT /\ tx' = WithMc(tx, obsX)
      /\ ab' = [i \in 1..hd.nt |-> IF obsX[i].lv THEN Elems(obsT[i]) ELSE {}]
-     /\ lk' = [ids |-> lk.ids \cup unacc, blocks |-> lk.blocks \o extra]
+     /\ lk' = [lk EXCEPT !.ids = lk.ids \cup unacc, !.blocks = lk.blocks \o extra]
      /\ ok' = (invd = {})
      /\ UNCHANGED hd
 
@@ -560,9 +572,9 @@ ChaosStep(e) ==
      /\ IF bad # {} /\ mine = {} THEN TLCSet(46, TLCGet(46) + 1) /\ (IF TLCGet(47) = <<>> THEN TLCSet(47, <<l, e.op, {b[1] : b \in bad}>>) ELSE TRUE) ELSE TRUE
      /\ IF bad = {} /\ ok /\ ~strictOK THEN TLCSet(42, TLCGet(42) + 1) /\ (IF TLCGet(45) = <<>> THEN TLCSet(45, <<l, e.op>>) ELSE TRUE) ELSE TRUE
      /\ TLCSet(44, TLCGet(44) + 1) /\ IF strictKnown THEN TLCSet(49, TLCGet(49) + 1) ELSE TRUE
-     /\ tb' = obsT /\ tx' = obsX
+     /\ tb' = obsT /\ tx' = WithMc(tx, obsX)
      /\ ab' = [i \in 1..hd.nt |-> IF obsX[i].lv THEN Elems(obsT[i]) ELSE {}]
-     /\ lk' = [ids |-> lk.ids \cup (IF forgot THEN unacc ELSE {}), blocks |-> lk.blocks \o extra]
+     /\ lk' = [lk EXCEPT !.ids = lk.ids \cup (IF forgot THEN unacc ELSE {}), !.blocks = lk.blocks \o extra]
      /\ ok' = (sd = {})
      /\ UNCHANGED hd
 
